@@ -28,7 +28,7 @@ def resync (s : St Float) (obs : List Rec) : St Float :=
   obs.foldl (fun s r => if r.name == "list" then setT s (r.int "t") (instsOf r) else s) s
 
 def relevant05 (r : Rec) : Bool :=
-  ["Added", "Removed", "Dispelled", "ExtDur", "ExtCnt", "err", "ret", "panic", "list", "hook"].contains r.name
+  ["Added", "Removed", "Dispelled", "ExtDur", "ExtCnt", "err", "ret", "panic", "list", "hook", "Resisted", "applied"].contains r.name
 
 /-- the part of a `list` record C05 speaks about -/
 def listKey (r : Rec) : Rec :=
